@@ -553,8 +553,49 @@ static int random_mode(int nseeds) {
   return 0;
 }
 
+// ---- mode `pinit`: Parameter::init / add_stats with the allocation failure at every index k, printed
+// for the comparison with the Coq model Fault/ParamInit.v (engines/c10.py param_init_tie):
+//   PINIT <op> k=<k> outcome=<Error|ok> live_delta=<d> stats=<number of statistics afterwards>
+static int pinit_mode() {
+  pvh::MemStats &m = pvh::mem();
+  pvh::CheckedNaive dev(9u);
+  Device::set_default(dev);
+  const V v6 = {1, 2, 3, 4, 5, 6};
+  for (int with_stats = 0; with_stats < 2; ++with_stats) for (long k = 0; k < 4; ++k) {
+    Parameter q(Shape({2, 3}), v6, dev);
+    if (with_stats) { q.add_stats("s", Shape({2})); }
+    const long live0 = m.live;
+    m.fail_at = m.total + k;
+    std::string r = outcome([&]() { q.init(Shape({3, 2}), V{9, 8, 7, 6, 5, 4}, dev); });
+    m.fail_at = -1;
+    std::cout << "PINIT init" << with_stats << " k=" << k << " outcome=" << r << " live_delta=" << (m.live - live0) << " stats=" << (q.has_stats("s") ? 1 : 0) << "\n";
+  }
+  for (long k = 0; k < 3; ++k) {
+    Parameter q(Shape({2, 3}), v6, dev);
+    const long live0 = m.live;
+    m.fail_at = m.total + k;
+    std::string r = outcome([&]() { q.add_stats("s", Shape({2})); });
+    m.fail_at = -1;
+    std::cout << "PINIT addstats k=" << k << " outcome=" << r << " live_delta=" << (m.live - live0) << " stats=" << (q.has_stats("s") ? 1 : 0) << "\n";
+  }
+  { // rejected for a reason other than allocation: size mismatch, batched shape, duplicate statistic
+    Parameter q(Shape({2, 3}), v6, dev); q.add_stats("s", Shape({2}));
+    long live0 = m.live;
+    std::string r = outcome([&]() { q.init(Shape({2, 2}), v6, dev); });
+    std::cout << "PINIT init-size k=-1 outcome=" << r << " live_delta=" << (m.live - live0) << " stats=" << (q.has_stats("s") ? 1 : 0) << "\n";
+    live0 = m.live;
+    r = outcome([&]() { q.init(Shape({2, 3}, 2), V(12, 1.0f), dev); });
+    std::cout << "PINIT init-batch k=-1 outcome=" << r << " live_delta=" << (m.live - live0) << " stats=" << (q.has_stats("s") ? 1 : 0) << "\n";
+    live0 = m.live;
+    r = outcome([&]() { q.add_stats("s", Shape({5})); });
+    std::cout << "PINIT addstats-dup k=-1 outcome=" << r << " live_delta=" << (m.live - live0) << " stats=" << (q.has_stats("s") ? 1 : 0) << "\n";
+  }
+  return 0;
+}
+
 int main(int argc, char **argv) {
   if (argc > 1 && std::string(argv[1]) == "random") return random_mode(argc > 2 ? std::stoi(argv[2]) : 3);
+  if (argc > 1 && std::string(argv[1]) == "pinit") return pinit_mode();
   unsigned seed = argc > 1 ? std::stoul(argv[1]) : 1;
   int n = argc > 2 ? std::stoi(argv[2]) : 12;
   std::mt19937 rng(seed);
